@@ -23,6 +23,7 @@ fn tok_profile(profile: &str, seed: u64, n: usize, out: &mut dyn Write) {
         cfg.kind = Some(0);
         match profile {
             "c12" => cfg.space_pre = true,
+            "nul" => cfg.nul_in_sentence = true,
             "c07tok" => cfg.kind = Some(1 + rng.below(2) as u8),
             "mixed" => cfg.kind = None,
             _ => {}
